@@ -23,6 +23,7 @@ import (
 	"strings"
 
 	appsv1alpha1 "github.com/openkruise/rollouts/api/v1alpha1"
+	appsv1beta1 "github.com/openkruise/rollouts/api/v1beta1"
 	"github.com/openkruise/rollouts/pkg/util"
 	utilclient "github.com/openkruise/rollouts/pkg/util/client"
 	apps "k8s.io/api/apps/v1"
@@ -33,10 +34,14 @@ import (
 )
 
 func (h *RolloutCreateUpdateHandler) validateV1alpha1RolloutUpdate(oldObj, newObj *appsv1alpha1.Rollout) field.ErrorList {
-	latestObject := &appsv1alpha1.Rollout{}
+	// read the storage version: the v1alpha1 view of a blue-green Rollout has neither spec nor status
+	latestObject := &appsv1beta1.Rollout{}
 	err := h.Client.Get(context.TODO(), client.ObjectKeyFromObject(newObj), latestObject)
 	if err != nil {
 		return field.ErrorList{field.InternalError(field.NewPath("Rollout"), err)}
+	}
+	if latestObject.Spec.Strategy.BlueGreen != nil {
+		return field.ErrorList{field.Forbidden(field.NewPath("Spec.Strategy"), "a blue-green Rollout cannot be modified through the v1alpha1 API")}
 	}
 	if errorList := h.validateV1alpha1Rollout(newObj); errorList != nil {
 		return errorList
@@ -44,7 +49,7 @@ func (h *RolloutCreateUpdateHandler) validateV1alpha1RolloutUpdate(oldObj, newOb
 
 	switch latestObject.Status.Phase {
 	// The workloadRef and TrafficRouting are not allowed to be modified in the Progressing, Terminating state
-	case appsv1alpha1.RolloutPhaseProgressing, appsv1alpha1.RolloutPhaseTerminating:
+	case appsv1beta1.RolloutPhaseProgressing, appsv1beta1.RolloutPhaseTerminating:
 		if !reflect.DeepEqual(oldObj.Spec.ObjectRef, newObj.Spec.ObjectRef) {
 			return field.ErrorList{field.Forbidden(field.NewPath("Spec.ObjectRef"), "Rollout 'ObjectRef' field is immutable")}
 		}
@@ -82,14 +87,23 @@ func (h *RolloutCreateUpdateHandler) validateV1alpha1Rollout(rollout *appsv1alph
 
 func (h *RolloutCreateUpdateHandler) validateV1alpha1RolloutConflict(rollout *appsv1alpha1.Rollout, path *field.Path) field.ErrorList {
 	errList := field.ErrorList{}
-	rolloutList := &appsv1alpha1.RolloutList{}
+	if rollout.Spec.ObjectRef.WorkloadRef == nil {
+		return nil
+	}
+	ref := &appsv1beta1.ObjectRef{
+		APIVersion: rollout.Spec.ObjectRef.WorkloadRef.APIVersion,
+		Kind:       rollout.Spec.ObjectRef.WorkloadRef.Kind,
+		Name:       rollout.Spec.ObjectRef.WorkloadRef.Name,
+	}
+	// list the storage version: blue-green Rollouts have no workloadRef in their v1alpha1 view
+	rolloutList := &appsv1beta1.RolloutList{}
 	err := h.Client.List(context.TODO(), rolloutList, client.InNamespace(rollout.Namespace), utilclient.DisableDeepCopy)
 	if err != nil {
 		return append(errList, field.InternalError(path, err))
 	}
 	for i := range rolloutList.Items {
 		r := &rolloutList.Items[i]
-		if r.Name == rollout.Name || !IsSameV1alpha1WorkloadRefGVKName(r.Spec.ObjectRef.WorkloadRef, rollout.Spec.ObjectRef.WorkloadRef) {
+		if r.Name == rollout.Name || !IsSameWorkloadRefGVKName(&r.Spec.WorkloadRef, ref) {
 			continue
 		}
 		return field.ErrorList{field.Invalid(path, rollout.Name,
